@@ -133,7 +133,19 @@ pub fn run(sched_path: &str, out_path: &str, max_points: usize, abort_points: us
             orders.push(json!({"op": steps[t]["op"], "writes": log.iter().map(|w| json!([w.table, w.row, w.op])).collect::<Vec<_>>()}));
             let during = steps[t]["op"].as_str().unwrap_or("").to_string();
             // crash points: all of them, or an even sample
-            let idxs: Vec<usize> = if n <= max_points { (1..=n).collect() } else { (0..max_points).map(|k| 1 + k * (n - 1) / (max_points - 1)).collect() };
+            let mut idxs: Vec<usize> = if n <= max_points { (1..=n).collect() } else { (0..max_points).map(|k| 1 + k * (n - 1) / (max_points - 1)).collect() };
+            // the writes of the three block-keyed tables are few and order-sensitive (deletes in sequence, holes in between): every
+            // one of them is a crash point, and so is the write right after the last of them
+            for (j, w) in log.iter().enumerate() {
+                if w.row == "block" {
+                    idxs.push(j + 1);
+                    if j + 2 <= n {
+                        idxs.push(j + 2);
+                    }
+                }
+            }
+            idxs.sort();
+            idxs.dedup();
             // a few of the points are executed by a child process that really dies (abort inside the write path): nothing
             // is flushed or closed, so what survives is exactly what RocksDB had made durable
             let abort_at: Vec<usize> = if abort_points == 0 || n == 0 { vec![] } else {
